@@ -45,6 +45,14 @@ type Env struct {
 	result []TV // return values (nil outside postconditions)
 	pkg    *types.Package
 	oldLookup func(name string) (TV, bool)
+	// derefs: names that denote the contents of a cell (captured variables of a closure at a call
+	// site): read from whatever state the expression is evaluated in
+	derefs map[string]derefBinding
+}
+
+type derefBinding struct {
+	cell Term
+	elem types.Type
 }
 
 func (e *Env) withState(st State) *Env {
@@ -515,7 +523,10 @@ func (vc *VC) evalIdent(name string, env *Env) TV {
 	if v, ok := env.bound[name]; ok {
 		return v
 	}
-	if name == "result" {
+	if d, ok := env.derefs[name]; ok && !(name == "result" && len(env.result) > 0) {
+		return TV{T: vc.load(env.state, d.cell, d.elem), Ty: goTy(d.elem)}
+	}
+	if name == "result" && len(env.result) > 0 {
 		if env.result == nil {
 			specFail("result not available here")
 		}
